@@ -19,3 +19,27 @@ Definition is_noise (it : item) : bool :=
 Definition denoise_file (f : file) : file := (fst f, filter (fun it => negb (is_noise it)) (snd f)).
 Definition denoise (p : project) : project := map denoise_file p.
 Definition noise_file (f : file) : bool := forallb is_noise (snd f).
+
+(* ---------- the source transformations of the property's last sentence ---------- *)
+(* one step: reorder the items of a file, move an item to another file, split a file in two, merge two
+   files, list the files in another order, rename a file *)
+Inductive tstep : project -> project -> Prop :=
+| t_reorder pre k l l' post : Permutation l l' ->
+    tstep (pre ++ (k, l) :: post) (pre ++ (k, l') :: post)
+| t_move pre k l1 x l2 mid k' m1 m2 post :
+    tstep (pre ++ (k, l1 ++ x :: l2) :: mid ++ (k', m1 ++ m2) :: post)
+          (pre ++ (k, l1 ++ l2) :: mid ++ (k', m1 ++ x :: m2) :: post)
+| t_move_back pre k l1 x l2 mid k' m1 m2 post :
+    tstep (pre ++ (k', m1 ++ m2) :: mid ++ (k, l1 ++ x :: l2) :: post)
+          (pre ++ (k', m1 ++ x :: m2) :: mid ++ (k, l1 ++ l2) :: post)
+| t_split pre k k' l1 l2 post :
+    tstep (pre ++ (k, l1 ++ l2) :: post) (pre ++ (k, l1) :: (k', l2) :: post)
+| t_merge pre k k' l1 l2 post :
+    tstep (pre ++ (k, l1) :: (k', l2) :: post) (pre ++ (k, l1 ++ l2) :: post)
+| t_files p p' : Permutation p p' -> tstep p p'
+| t_rename pre k k' l post :
+    tstep (pre ++ (k, l) :: post) (pre ++ (k', l) :: post).
+(* any sequence of steps *)
+Inductive tsteps : project -> project -> Prop :=
+| ts_refl p : tsteps p p
+| ts_step p q r : tstep p q -> tsteps q r -> tsteps p r.
